@@ -54,6 +54,11 @@ CHECKS = {
          "36 recursion shapes (calls, thunk chains, comparison, string conversion, every manifester, self-dependent values, non-terminating programs) are run for every frame limit and depth of the grid: each run must end in a value, StackOverflow or InfiniteRecursion (never a panic or a dead process; depths up to 3*10^5 under a 1 MiB native stack), success is monotone in the limit with an identical value, cycles are reported as infinite recursion once the limit exceeds the cycle, non-terminating shapes never yield a value.",
          "Trusted: nothing beyond the harness; recursion shapes outside the list and source-text nesting (parser) are not covered here.",
          "DESIGN.md §4 C10"),
+ "C11": ("model_checking",
+         "explicit-state exploration of all request histories up to a length bound on one Program, differential against a fresh state",
+         "All histories of length <=3 (quick) / <=4 (thorough) over a 31-request alphabet (evaluations of sources sharing ext-var values incl. failing assertions, failing fields, stack overflows; re-evaluation of persistent thunks; eval_call with shared argument thunks; explicit gc; manifestations) are executed on one long-lived Program; each request must answer exactly as it does when issued first on a fresh state.",
+         "Trusted: nothing beyond the harness (no hand-written expectations); histories above the bound and requests outside the alphabet are not covered.",
+         "DESIGN.md §4 C11"),
 }
 def main():
     hooks = subprocess.run(["git","-C","/repo","log","--format=%H %s"],capture_output=True,text=True).stdout.splitlines()
